@@ -21,7 +21,7 @@ CONSTANTS KeySets,       \* key lists the server may hold (all contain the clien
 ClientAll == {"CH2ok", "CH2noEch", "CH2cid", "CH2suite", "CH2enc", "CH2undec", "CH2sni", "CH2alpn", "CH2outerSni", "CH2innerType",
               "CH2no13", "CH2again", "CCS", "HSother", "ALERT", "APP", "ZERO", "ZEROAPP"}
 \* backend records
-BackendAll == {"SH", "HRR", "CCS", "HSother", "APP", "SHbad", "ZERO", "ZEROAPP"}
+BackendAll == {"SH", "HRR", "CCS", "HSother", "APP", "SHbad", "ZERO", "ZEROAPP", "ALERTF"}
 
 IsCH(s) == s \in {"CH2ok", "CH2noEch", "CH2cid", "CH2suite", "CH2enc", "CH2undec", "CH2sni", "CH2alpn", "CH2outerSni", "CH2innerType", "CH2no13", "CH2again"}
 
